@@ -1,15 +1,29 @@
 import GolibsVerif.Lemmas.RedisConcSim
 import GolibsVerif.Lemmas.RedisConcLoop
+import GolibsVerif.Lemmas.RedisConcFacts
+import GolibsVerif.Lemmas.RedisConcHist
+import GolibsVerif.Props.C03
 /-
 C02 (Redis backend, all interleavings, with expiries and a clock) — the command-level concurrent
-model `RedisConc` of kvs/redis/redis.go is linearizable w.r.t. the KV contract `Kv.Spec` read at the
-server's time: for ANY number of clients, ANY programs over Create / Get / GetMany / Put /
-PutMany (MSET, or the loop of SETs) / CasByVersion / Delete with ANY expiries, ANY interleaving of
-their Redis commands (including any number of lost WATCH/EXEC races and of Create's SETNX/GET
-retries) and ANY advance of the clock outside the clients' TTL windows, every operation takes effect
-at exactly one of its commands, between its invocation and its response, with exactly the result the
-contract gives at that moment and that time.  The loop path of PutMany is not one operation: each of
-its SETs is one complete Put of that client, in the order of the records ("per-key effects").
+model `RedisConc` of kvs/redis/redis.go is linearizable w.r.t. the SEQUENTIAL model of that client over
+a Redis server (`Kv.Redis.step`: the server drops the keys whose TTL has elapsed, then the client
+acts; `Kv.RedisSrv`, `deadlineOf` — the 1 ms clamp —, `rKey` — leading slashes stripped) run at the
+server's time: for ANY number of clients, ANY programs over Create / Get / GetMany / Put / PutMany
+(MSET, or the loop of SETs) / CasByVersion / Delete with ANY expiries (past, present, future) and ANY
+keys (aliasing ones included), ANY interleaving of their Redis commands (including any number of lost
+WATCH/EXEC races and of Create's SETNX/GET retries) and ANY advance of the clock outside the clients'
+TTL windows, every operation takes effect at exactly one of its commands, between its invocation and
+its response, with exactly the result the sequential client model gives at that moment and that time.
+The loop path of PutMany is not one operation: each of its SETs is one complete Put of that client,
+in the order of the records ("per-key effects").
+
+No hypothesis on expiries or keys anywhere.  The tie to the KV contract `Kv.Spec` is the corollary
+`linearizable_to_contract`: where the linearized timed history satisfies `Kv.RedisOK` (the hypothesis
+of `C03.redis_refines_spec`), the clients got the contract's results.
+
+State correspondence: `L.st = (s.srv, s.now)` where `s.srv : Kv.Redis` is the server exactly as the last
+command that took effect left it (purged at THAT command's time, not since; every command and
+`Kv.Redis.step` purge at the current time before they look).  `s.psrv` is `s.srv` purged at `s.now`.
 -/
 namespace C02Redis
 open Kv RedisConc Lin
@@ -18,12 +32,13 @@ open Kv RedisConc Lin
 `linearized _ _ r` ↔ `done r` (the result is the one fixed at the linearization point);
 `pending _ (.op op)` ↔ a pc with `opOf pc = some op`. -/
 /-- the WATCH guarantee the CAS relies on: a client about to EXEC whose watch is untouched still sees
-the record it read: the key holds a (live) record with exactly the expected version. -/
+the record it read: it watches the REDIS key of its key, and that key (on the server purged at the
+current time) holds a record with exactly the expected version. -/
 theorem exec_sees_what_get_saw (n : Nat) (es : List Ev) (s : St) (ls : List (Lin.Ev LOp Out))
     (h : runL (St.init n) es = some (s, ls)) (t : Nat) (k : String) (ver : Nat) (v : String) (e : Option Nat)
     (kw : String)
     (hp : s.pc[t]? = some (.casExec k ver v e)) (hw : s.watch[t]? = some (some (kw, false))) :
-    kw = k ∧ ∃ r, s.srv.live s.now k = some r ∧ r.ver = ver := by
+    kw = rKey k ∧ ∃ rv, s.psrv.srv.get (rKey k) = some rv ∧ rv.r.ver = ver := by
   have hi := (WInv.init n).runL h
   obtain ⟨d, hd, hr⟩ := hi.ok t _ hp
   rw [hd] at hw
@@ -31,12 +46,12 @@ theorem exec_sees_what_get_saw (n : Nat) (es : List Ev) (s : St) (ls : List (Lin
   exact ⟨hw.1.symm, hr hw.2⟩
 
 /-- C02Redis.simulates: every concurrent run of the Redis clients and the clock is a run of the
-atomic-step system `Lin.Sys` over the KV contract with its time: the Lin events it produces are
-accepted, the contract state and time equal the server state and time, every client's operation is in
-the corresponding phase, and the clock thread (id = number of clients) is idle. -/
+atomic-step system `Lin.Sys` over the sequential Redis client model with its time: the Lin events it
+produces are accepted, the sequential model's state and time equal the server state and time, every
+client's operation is in the corresponding phase, and the clock thread (id = number of clients) is idle. -/
 theorem simulates (n : Nat) (es : List Ev) (s : St) (ls : List (Lin.Ev LOp Out))
     (h : runL (St.init n) es = some (s, ls)) :
-    ∃ L : Lin.Sys (Spec × Nat) LOp Out, (Lin.Sys.init (Spec.new, 0)).run obj ls = some L ∧
+    ∃ L : Lin.Sys (Redis × Nat) LOp Out, (Lin.Sys.init (Redis.new, 0)).run obj ls = some L ∧
       L.st = (s.srv, s.now) ∧
       (∀ t p, s.pc[t]? = some p → Corr p (L.th t)) ∧
       L.th s.pc.length = .idle := by
@@ -44,22 +59,42 @@ theorem simulates (n : Nat) (es : List Ev) (s : St) (ls : List (Lin.Ev LOp Out))
   exact ⟨L, hL, hs.1, hs.2.1, hs.2.2⟩
 
 /-- C02Redis.linearizable: the order in which the operations (and the ticks of the clock) took effect
-is a legal sequential history of the KV contract producing exactly the results the clients got and
-the server's final state and time; it respects real time; every completed operation is in it exactly
-once. -/
+is a legal sequential history of the sequential Redis client model producing exactly the results the
+clients got and the server's final state and time; it respects real time; every completed operation
+is in it exactly once. -/
 theorem linearizable (n : Nat) (es : List Ev) (s : St) (ls : List (Lin.Ev LOp Out))
     (h : runL (St.init n) es = some (s, ls)) :
-    ∃ L : Lin.Sys (Spec × Nat) LOp Out, (Lin.Sys.init (Spec.new, 0)).run obj ls = some L ∧
-      seqRun obj (Spec.new, 0) (L.order.map (·.2.1)) = ((s.srv, s.now), L.order.map (·.2.2)) ∧
+    ∃ L : Lin.Sys (Redis × Nat) LOp Out, (Lin.Sys.init (Redis.new, 0)).run obj ls = some L ∧
+      seqRun obj (Redis.new, 0) (L.order.map (·.2.1)) = ((s.srv, s.now), L.order.map (·.2.2)) ∧
       (L.order.map (·.1)).Nodup ∧ (∀ a pa, (a, pa) ∈ L.retPos → a ∈ L.order.map (·.1)) ∧
       (∀ a b pa, (a, pa) ∈ L.retPos → b ∈ L.order.map (·.1) → pa < b →
         ∃ ia ib, (L.order.map (·.1)).idxOf? a = some ia ∧ (L.order.map (·.1)).idxOf? b = some ib ∧ ia < ib) := by
   obtain ⟨L, hL, hst, _⟩ := simulates n es s ls h
-  have h1 := LinThm.order_is_sequential obj (Spec.new, 0) ls L hL
-  have h2 := LinThm.completed_in_order obj (Spec.new, 0) ls L hL
+  have h1 := LinThm.order_is_sequential obj (Redis.new, 0) ls L hL
+  have h2 := LinThm.completed_in_order obj (Redis.new, 0) ls L hL
   refine ⟨L, hL, by rw [h1, hst], h2.1, h2.2, ?_⟩
   intro a b pa ha hb hlt
-  exact LinThm.order_respects_real_time obj (Spec.new, 0) ls L hL a b pa ha hb hlt
+  exact LinThm.order_respects_real_time obj (Redis.new, 0) ls L hL a b pa ha hb hlt
+
+/-- C02Redis.linearizable_to_contract: the tie to the KV contract.  Read the linearization order of a
+run as a timed history (`histOf`: the time of an operation is the sum of the clock's ticks that took
+effect before it).  That history is ALWAYS monotone (the clock only advances), the clients' results are
+ALWAYS those of the sequential Redis client model on it (`runRedis`), and WHERE it satisfies
+`Kv.RedisOK` (no leading '/', every written expiry in the future, no operation at an expiry instant —
+the hypothesis of `C03.redis_refines_spec`) they are exactly the results of the contract `Kv.Spec` on it. -/
+theorem linearizable_to_contract (n : Nat) (es : List Ev) (s : St) (ls : List (Lin.Ev LOp Out))
+    (h : runL (St.init n) es = some (s, ls)) :
+    ∃ L : Lin.Sys (Redis × Nat) LOp Out, (Lin.Sys.init (Redis.new, 0)).run obj ls = some L ∧
+      Monotone 0 (histOf (L.order.map (·.2.1)) 0) ∧
+      runRedis Redis.new (histOf (L.order.map (·.2.1)) 0) = (s.srv, opResults (L.order.map (·.2))) ∧
+      (RedisOK (histOf (L.order.map (·.2.1)) 0) →
+        opResults (L.order.map (·.2)) = (runSpec Spec.new (histOf (L.order.map (·.2.1)) 0)).2) := by
+  obtain ⟨L, hL, hseq, _⟩ := linearizable n es s ls h
+  have hm := histOf_monotone (L.order.map (·.2.1)) 0 0 (Nat.le_refl 0)
+  have hrun : runRedis Redis.new (histOf (L.order.map (·.2.1)) 0) = (s.srv, opResults (L.order.map (·.2))) := by
+    rw [seqRun_histOf, hseq, List.zip_map']
+  refine ⟨L, hL, hm, hrun, fun hok => ?_⟩
+  rw [← C03.redis_refines_spec _ hm hok, hrun]
 
 /-- a returned result is the one fixed at the operation's linearization point: `ret t r` is accepted
 only when the client's pc is `done r` — or, for the loop path of PutMany (every SET already reported
@@ -87,7 +122,7 @@ theorem ret_is_lin_result (s s' : St) (t : Nat) (r : Out) (l : List (Lin.Ev LOp 
 /-- every operation has at most one linearization point.  A command step has one of three shapes:
 it emits `lin t` and moves the client (which was inside an operation) to `done`; or it emits nothing,
 leaves the server unchanged and stays inside the same operation; or it is one SET of the PutMany
-loop: a complete Put of the head record, the server takes that write, the loop advances. -/
+loop: a complete Put of the head record, the (purged) server takes that write, the loop advances. -/
 theorem lin_once (s s' : St) (t : Nat) (l : List (Lin.Ev LOp Out))
     (h : step s (.cmd t) = some (s', l)) :
     (l = [.lin t] ∧ (∃ op, s.pc[t]?.bind opOf = some op) ∧ ∃ r, s'.pc[t]? = some (.done r)) ∨
@@ -95,7 +130,7 @@ theorem lin_once (s s' : St) (t : Nat) (l : List (Lin.Ev LOp Out))
     (∃ k v e rest, s.pc[t]? = some (.putLoop ((k, v, e) :: rest)) ∧
       l = [.inv t (.op (.put k v e)), .lin t, .ret t (.okVer s.srv.nextVer)] ∧
       s'.pc[t]? = some (if rest = [] then .loopDone else .putLoop rest) ∧
-      s'.srv = (s.srv.write k v e).1) := by
+      s'.srv = (s.psrv.setRec s.now k v e).1) := by
   simp only [RedisConc.step] at h
   obtain ⟨p, hp, hcase⟩ := cmdStep_weak h
   have hlt : t < s.pc.length := (List.getElem?_eq_some_iff.mp hp).1
@@ -114,14 +149,16 @@ theorem putmany_loop_entry (s : St) (t : Nat) (rs : List (String × String × Op
   rfl
 
 /-- one command of the PutMany loop is one SET, reported as ONE complete Put of the head record with
-the version that write got; the server takes exactly that write (touching the watchers of the key);
+the version that write got; the server (purged at the current time) takes exactly that write
+(`Redis.setRec`: payload with the requested expiry, key deadline `deadlineOf e now`), touching the
+watchers of the Redis key;
 the loop goes on with the remaining records, or is over -/
 theorem putmany_loop_is_puts (s s' : St) (t : Nat) (k v : String) (e : Option Nat)
     (rest : List (String × String × Option Nat)) (l : List (Lin.Ev LOp Out))
     (hp : s.pc[t]? = some (.putLoop ((k, v, e) :: rest))) (h : step s (.cmd t) = some (s', l)) :
     l = [.inv t (.op (.put k v e)), .lin t, .ret t (.okVer s.srv.nextVer)] ∧
     s'.pc[t]? = some (if rest = [] then .loopDone else .putLoop rest) ∧
-    s'.srv = (s.srv.write k v e).1 ∧ s'.watch = touch s.watch [k] ∧ s'.now = s.now := by
+    s'.srv = (s.psrv.setRec s.now k v e).1 ∧ s'.watch = touch s.watch [rKey k] ∧ s'.now = s.now := by
   have hlt : t < s.pc.length := (List.getElem?_eq_some_iff.mp hp).1
   simp only [RedisConc.step, cmdStep_putLoop hp, Option.some.injEq, Prod.mk.injEq] at h
   obtain ⟨rfl, rfl⟩ := h
@@ -162,25 +199,163 @@ theorem tick_only_outside_ttl_windows (s s' : St) (d : Nat) (l : List (Lin.Ev LO
   obtain ⟨hb, rfl, rfl⟩ := tick_shape h
   exact ⟨hb, rfl, rfl, rfl, rfl, rfl⟩
 
-/-- expiry in the concurrent model: a record whose expiry lies before the server's time is invisible
-to every client, whatever command it issues next: GET / DEL / the GET of a CAS answer "absent", SETNX
-succeeds (and overwrites it). -/
-theorem expired_record_invisible_to_all_clients (s : St) (k : String) (r : Rec) (e : Nat)
-    (hr : s.srv.store.get k = some r) (he : r.exp = some e) (hlt : e < s.now) (t : Nat) :
-    s.srv.live s.now k = none ∧
-    (s.pc[t]? = some (.get k) → step s (.cmd t) = some (s.setPc t (.done .errNotExist), [.lin t])) ∧
+/-- a key that is absent from the server purged at the current time is absent for every client,
+whatever command it issues next: GET / DEL / the GET of a CAS answer "absent", SETNX succeeds.
+(Any state; the key is given as a client key `k`, the premise speaks of its Redis key: every alias
+`k'` with `rKey k' = rKey k` is covered by instantiating the theorem with `k'`.) -/
+theorem absent_key_invisible_to_all_clients (s : St) (k : String) (hl : s.psrv.srv.get (rKey k) = none) (t : Nat) :
+    (s.pc[t]? = some (.get k) →
+      step s (.cmd t) = some ({ s with srv := s.psrv }.setPc t (.done .errNotExist), [.lin t])) ∧
     (∀ v e', s.pc[t]? = some (.create1 k v e') →
-      step s (.cmd t) = some ({ s with srv := (s.srv.write k v e').1, watch := touch s.watch [k] }.setPc t
+      step s (.cmd t) = some ({ s with srv := (s.psrv.setRec s.now k v e').1, watch := touch s.watch [rKey k] }.setPc t
         (.done (.okVer s.srv.nextVer)), [.lin t])) ∧
-    (s.pc[t]? = some (.del k) → step s (.cmd t) = some (s.setPc t (.done .errNotExist), [.lin t])) ∧
+    (s.pc[t]? = some (.del k) →
+      step s (.cmd t) = some ({ s with srv := s.psrv }.setPc t (.done .errNotExist), [.lin t])) ∧
     (∀ ver v e', s.pc[t]? = some (.casGet k ver v e') →
-      step s (.cmd t) = some ({ s with watch := s.watch.set t none }.setPc t (.done .errNotExist), [.lin t])) := by
-  have hl : s.srv.live s.now k = none := by simp [Spec.live, hr, expired, he, hlt]
-  refine ⟨hl, ?_, ?_, ?_, ?_⟩
-  · intro hp; simp [RedisConc.step, cmdStep, hp, Spec.step, hl]
-  · intro v e' hp; simp [RedisConc.step, cmdStep, hp, hl, Spec.write]
-  · intro hp; simp [RedisConc.step, cmdStep, hp, hl]
-  · intro ver v e' hp; simp [RedisConc.step, cmdStep, hp, hl]
+      step s (.cmd t) = some ({ s with srv := s.psrv, watch := s.watch.set t none }.setPc t (.done .errNotExist), [.lin t])) :=
+  absent_cmds s k hl t
+
+/-- expiry in the concurrent model: in every reachable state, a key whose deadline has been reached
+(`d ≤ now`: Redis drops a key AT its deadline) is invisible to every client, whatever command it
+issues next: GET / DEL / the GET of a CAS answer "absent", SETNX succeeds (and overwrites it).
+(Reachability is used for one fact only: the server never holds a key twice.) -/
+theorem expired_record_invisible_to_all_clients (n : Nat) (es : List Ev) (s : St) (ls : List (Lin.Ev LOp Out))
+    (h : runL (St.init n) es = some (s, ls)) (k : String) (rv : RVal) (d : Nat)
+    (hr : s.srv.srv.get (rKey k) = some rv) (hd : rv.deadline = some d) (hle : d ≤ s.now) (t : Nat) :
+    s.psrv.srv.get (rKey k) = none ∧
+    (s.pc[t]? = some (.get k) →
+      step s (.cmd t) = some ({ s with srv := s.psrv }.setPc t (.done .errNotExist), [.lin t])) ∧
+    (∀ v e', s.pc[t]? = some (.create1 k v e') →
+      step s (.cmd t) = some ({ s with srv := (s.psrv.setRec s.now k v e').1, watch := touch s.watch [rKey k] }.setPc t
+        (.done (.okVer s.srv.nextVer)), [.lin t])) ∧
+    (s.pc[t]? = some (.del k) →
+      step s (.cmd t) = some ({ s with srv := s.psrv }.setPc t (.done .errNotExist), [.lin t])) ∧
+    (∀ ver v e', s.pc[t]? = some (.casGet k ver v e') →
+      step s (.cmd t) = some ({ s with srv := s.psrv, watch := s.watch.set t none }.setPc t (.done .errNotExist), [.lin t])) := by
+  have hn : KeysNodup s.srv := KeysNodup.runL (WInv.init n) (KeysNodup.init n) h
+  have hdead : rv.alive s.now = false := by simp [RVal.alive, hd]; omega
+  have hl : s.psrv.srv.get (rKey k) = none := by
+    have hr' : RedisSrv.get ⟨s.srv.srv.keys⟩ (rKey k) = some rv := hr
+    exact dead_invisible hn hr' hdead
+  exact ⟨hl, absent_cmds s k hl t⟩
+
+/-! ### what the re-basing on the Redis server model buys -/
+
+/-- a Put whose requested expiry is NOT in the future (`e ≤ now`): the Go code clamps the TTL to 1 ms,
+so the record — payload expiry `e`, in the past — is on the server until `now + 1`: a GET of ANY client
+(through any alias of the key) at the same millisecond returns it, and after the clock has advanced
+(by 1 ms or more) it is gone.  (`Kv.Spec` drops such a record at once.) -/
+theorem past_expiry_visible_until_next_ms (s s1 : St) (t : Nat) (k v : String) (e : Nat)
+    (l : List (Lin.Ev LOp Out))
+    (hp : s.pc[t]? = some (.put k v (some e))) (he : e ≤ s.now) (h : step s (.cmd t) = some (s1, l)) :
+    s1.now = s.now ∧
+    s1.psrv.srv.get (rKey k) = some { r := { val := v, ver := s.srv.nextVer, exp := some e }, deadline := some (s.now + 1) } ∧
+    (∀ t' k', rKey k' = rKey k → s1.pc[t']? = some (.get k') →
+      step s1 (.cmd t') = some ({ s1 with srv := s1.psrv }.setPc t' (.done (.record v s.srv.nextVer (some e))), [.lin t'])) ∧
+    (∀ d s2 l2, 1 ≤ d → step s1 (.tick d) = some (s2, l2) →
+      s2.psrv.srv.get (rKey k) = none ∧
+      ∀ t' k', rKey k' = rKey k → s2.pc[t']? = some (.get k') →
+        step s2 (.cmd t') = some ({ s2 with srv := s2.psrv }.setPc t' (.done .errNotExist), [.lin t'])) := by
+  obtain ⟨hnow, hsrv, _, _, _⟩ := put_cmd hp h
+  have hver : s.psrv.nextVer = s.srv.nextVer := rfl
+  have hdl : deadlineOf (some e) s.now = some (s.now + 1) := by
+    simp only [deadlineOf, Option.map_some]
+    rw [if_pos (by omega)]
+  have hvis : s1.psrv.srv.get (rKey k)
+      = some { r := { val := v, ver := s.srv.nextVer, exp := some e }, deadline := some (s.now + 1) } := by
+    rw [look_after_set s1 _ _ _ _ _ hsrv, hnow, alive_deadlineOf, if_pos rfl, hdl, hver]
+  refine ⟨hnow, hvis, ?_, ?_⟩
+  · intro t' k' hk hp'
+    exact present_get s1 k' _ (by rw [hk]; exact hvis) t' hp'
+  · intro d s2 l2 hd ht
+    obtain ⟨hnow2, hsrv2, _, _⟩ := tick_cmd ht
+    have hgone : s2.psrv.srv.get (rKey k) = none := by
+      rw [look_after_set s2 _ _ _ _ _ (hsrv2.trans hsrv), alive_deadlineOf_later, if_neg]
+      simp only [decide_eq_true_eq]
+      omega
+    refine ⟨hgone, ?_⟩
+    intro t' k' hk hp'
+    exact (absent_cmds s2 k' (by rw [hk]; exact hgone) t').1 hp'
+
+/-- the boundary instant: a record written with an expiry `e` in the future gets the key deadline `e`;
+it is there for every client as long as the server's time is before `e`, and it is gone for every
+client when the server's time is EXACTLY `e` (Redis: gone iff `deadline ≤ now`) — whereas the contract
+`Kv.Spec` still shows it at that instant (`Kv.expired`: expired iff `e < now`). -/
+theorem boundary_instant (s s1 : St) (t : Nat) (k v : String) (e : Nat) (l : List (Lin.Ev LOp Out))
+    (hp : s.pc[t]? = some (.put k v (some e))) (he : s.now < e) (h : step s (.cmd t) = some (s1, l)) :
+    s1.srv.srv.get (rKey k) = some { r := { val := v, ver := s.srv.nextVer, exp := some e }, deadline := some e } ∧
+    (∀ d s2 l2, step s1 (.tick d) = some (s2, l2) → s2.now < e →
+      s2.psrv.srv.get (rKey k) = some { r := { val := v, ver := s.srv.nextVer, exp := some e }, deadline := some e }) ∧
+    (∀ d s2 l2, step s1 (.tick d) = some (s2, l2) → s2.now = e →
+      expired { val := v, ver := s.srv.nextVer, exp := some e } s2.now = false ∧
+      s2.psrv.srv.get (rKey k) = none ∧
+      ∀ t' k', rKey k' = rKey k →
+        (s2.pc[t']? = some (.get k') →
+          step s2 (.cmd t') = some ({ s2 with srv := s2.psrv }.setPc t' (.done .errNotExist), [.lin t'])) ∧
+        (∀ v' e', s2.pc[t']? = some (.create1 k' v' e') →
+          step s2 (.cmd t') = some ({ s2 with srv := (s2.psrv.setRec s2.now k' v' e').1, watch := touch s2.watch [rKey k'] }.setPc t'
+            (.done (.okVer s2.srv.nextVer)), [.lin t'])) ∧
+        (s2.pc[t']? = some (.del k') →
+          step s2 (.cmd t') = some ({ s2 with srv := s2.psrv }.setPc t' (.done .errNotExist), [.lin t'])) ∧
+        (∀ ver v' e', s2.pc[t']? = some (.casGet k' ver v' e') →
+          step s2 (.cmd t') = some ({ s2 with srv := s2.psrv, watch := s2.watch.set t' none }.setPc t' (.done .errNotExist), [.lin t']))) := by
+  obtain ⟨hnow, hsrv, _, _, _⟩ := put_cmd hp h
+  have hver : s.psrv.nextVer = s.srv.nextVer := rfl
+  have hdl : deadlineOf (some e) s.now = some e := by
+    simp only [deadlineOf, Option.map_some]
+    rw [if_neg (by omega)]
+    congr 1; omega
+  have hlook : ∀ s2 : St, s2.srv = s1.srv → s2.psrv.srv.get (rKey k) =
+      if s2.now < e then some { r := { val := v, ver := s.srv.nextVer, exp := some e }, deadline := some e } else none := by
+    intro s2 h2
+    rw [look_after_set s2 _ _ _ _ _ (h2.trans hsrv), alive_deadlineOf_later, hdl, hver]
+    have hmax : max e (s.now + 1) = e := by omega
+    simp [hmax]
+  refine ⟨?_, ?_, ?_⟩
+  · rw [raw_after_set s1 _ _ _ _ _ hsrv, hdl, hver]
+  · intro d s2 l2 ht hlt
+    rw [hlook s2 (tick_cmd ht).2.1, if_pos hlt]
+  · intro d s2 l2 ht heq
+    have hgone := hlook s2 (tick_cmd ht).2.1
+    rw [if_neg (by omega)] at hgone
+    refine ⟨by simp [expired, heq], hgone, ?_⟩
+    intro t' k' hk
+    exact absent_cmds s2 k' (by rw [hk]; exact hgone) t'
+
+/-- leading slashes do not count: `"/" ++ x` and `x` are the same Redis key -/
+theorem rKey_slash (x : String) : rKey ("/" ++ x) = rKey x := by
+  unfold rKey
+  simp only [String.toList_append]
+  rfl
+
+/-- aliasing keys share ONE record and ONE watch: let `k'` and `k` be the same Redis key (`"/s"` and
+`"s"`, or any `"/" ++ x` and `x`).  After client t's `put k`, a GET of `k'` by any client returns that
+record; and a client t' that is between the GET and the EXEC of a CAS on `k'` when the SET of `put k`
+is executed finds its watch touched: its EXEC fails and the CAS starts over. -/
+theorem aliasing_keys_share_a_record (s s1 : St) (t : Nat) (k k' v : String) (e : Option Nat)
+    (l : List (Lin.Ev LOp Out))
+    (hk : rKey k' = rKey k) (hp : s.pc[t]? = some (.put k v e)) (h : step s (.cmd t) = some (s1, l)) :
+    rKey "/s" = rKey "s" ∧ (∀ x, rKey ("/" ++ x) = rKey x) ∧
+    (∀ t', s1.pc[t']? = some (.get k') →
+      step s1 (.cmd t') = some ({ s1 with srv := s1.psrv }.setPc t' (.done (.record v s.srv.nextVer e)), [.lin t'])) ∧
+    (∀ t' ver v' e' d, t' ≠ t → s.pc[t']? = some (.casExec k' ver v' e') → s.watch[t']? = some (some (rKey k', d)) →
+      s1.watch[t']? = some (some (rKey k', true)) ∧
+      step s1 (.cmd t') = some ({ s1 with watch := s1.watch.set t' none }.setPc t' (.casWatch k' ver v' e'), [])) := by
+  obtain ⟨hnow, hsrv, hwatch, hpc, _⟩ := put_cmd hp h
+  have hver : s.psrv.nextVer = s.srv.nextVer := rfl
+  refine ⟨rKey_slash "s", rKey_slash, ?_, ?_⟩
+  · intro t' hp'
+    have hvis : s1.psrv.srv.get (rKey k') = some { r := { val := v, ver := s.srv.nextVer, exp := e }, deadline := deadlineOf e s.now } := by
+      rw [hk, look_after_set s1 _ _ _ _ _ hsrv, hnow, alive_deadlineOf, if_pos rfl, hver]
+    exact present_get s1 k' _ hvis t' hp'
+  · intro t' ver v' e' d hne hpc' hw
+    have hw1 : s1.watch[t']? = some (some (rKey k', true)) := by
+      rw [hwatch, touch_getElem?, hw]
+      simp [touchE, hk]
+    have hp1 : s1.pc[t']? = some (.casExec k' ver v' e') := by
+      rw [hpc, List.getElem?_set_ne (Ne.symm hne)]; exact hpc'
+    refine ⟨hw1, ?_⟩
+    simp [RedisConc.step, cmdStep, hp1, hw1]
 
 /-- non-vacuity: a run in which a CAS loses the WATCH/EXEC race against a Put, starts over, and
 reports ErrConflict; and a run in which Create's GET finds the key gone again and the second SETNX wins. -/
@@ -228,6 +403,56 @@ example : runL (St.init 2) [.call 0 (.put "a" "x" (some 5)), .tick 1] = none := 
 
 example : ∃ s ls, runL (St.init 2) [.call 0 (.put "a" "x" (some 5)), .cmd 0, .tick 1] = some (s, ls) := by
   apply exists_of_isSome
+  decide
+
+/-- non-vacuity (d): the boundary instant and a past expiry.  A record written at time 0 with expiry 5
+is there at 4 and gone at EXACTLY 5 (the contract would still show it); a Put at time 5 with the past
+expiry 3 is seen — payload expiry 3 — by the other client before the next tick, and is gone after it;
+a Create then succeeds -/
+example : ∃ s ls, runL (St.init 2)
+    [.call 0 (.put "a" "x" (some 5)), .cmd 0, .ret 0 (.okVer 1),
+     .tick 4,
+     .call 1 (.get "a"), .cmd 1, .ret 1 (.record "x" 1 (some 5)),
+     .tick 1,
+     .call 1 (.get "a"), .cmd 1, .ret 1 .errNotExist,
+     .call 0 (.put "b" "y" (some 3)), .cmd 0, .ret 0 (.okVer 2),
+     .call 1 (.get "b"), .cmd 1, .ret 1 (.record "y" 2 (some 3)),
+     .tick 1,
+     .call 1 (.get "b"), .cmd 1, .ret 1 .errNotExist,
+     .call 1 (.create "b" "z" (some 6)), .cmd 1, .ret 1 (.okVer 3),
+     .call 0 (.get "b"), .cmd 0, .ret 0 (.record "z" 3 (some 6))] = some (s, ls) := by
+  apply exists_of_isSome
+  decide
+
+/-- non-vacuity (e): two aliasing keys under a CAS race.  Client 0 puts "s"; client 1 reads it as "/s"
+and starts a CAS on "/s" (WATCH, GET); client 0's Put on "s" lands before the EXEC: the EXEC fails
+(the watch is on the shared Redis key), the CAS starts over, finds version 2 and reports ErrConflict;
+a CAS on "//s" with the current version then succeeds and is read back through "s" -/
+example : ∃ s ls, runL (St.init 2)
+    [.call 0 (.put "s" "x" none), .cmd 0, .ret 0 (.okVer 1),
+     .call 1 (.get "/s"), .cmd 1, .ret 1 (.record "x" 1 none),
+     .call 1 (.cas "/s" 1 "y" none), .cmd 1, .cmd 1,
+     .call 0 (.put "s" "z" none), .cmd 0, .ret 0 (.okVer 2),
+     .cmd 1, .cmd 1, .cmd 1, .ret 1 .errConflict,
+     .call 1 (.cas "//s" 2 "w" none), .cmd 1, .cmd 1, .cmd 1, .ret 1 (.okVer 3),
+     .call 0 (.get "s"), .cmd 0, .ret 0 (.record "w" 3 none)] = some (s, ls) := by
+  apply exists_of_isSome
+  decide
+
+/-- non-vacuity (f) of `linearizable_to_contract`: a history that meets `RedisOK` (even operation
+times, odd future expiries, no leading slash) as the linearization of a run with expiry -/
+example : ∃ s ls L, runL (St.init 2)
+    [.call 0 (.put "a" "x" (some 5)), .cmd 0, .ret 0 (.okVer 1),
+     .tick 2,
+     .call 1 (.get "a"), .cmd 1, .ret 1 (.record "x" 1 (some 5)),
+     .tick 4,
+     .call 1 (.get "a"), .cmd 1, .ret 1 .errNotExist] = some (s, ls) ∧
+    (Lin.Sys.init (Redis.new, 0)).run obj ls = some L ∧
+    histOf (L.order.map (·.2.1)) 0 = [(0, .put "a" "x" (some 5)), (2, .get "a"), (6, .get "a")] ∧
+    RedisOK (histOf (L.order.map (·.2.1)) 0) := by
+  refine ⟨_, _, _, rfl, rfl, rfl, ?_⟩
+  show RedisOK [(0, .put "a" "x" (some 5)), (2, .get "a"), (6, .get "a")]
+  simp only [RedisOK, Op.expiries, Op.names]
   decide
 
 end C02Redis
